@@ -325,10 +325,18 @@ def extract_child(stackitem: StackItem, *, for_task: bool) -> Stack:
     errors: List[Exception] = []
     it = extract_iter(stackitem, errors)
     frames = []
+    leaf: Any = None
     while True:
         try:
             frames.append(next(it))
-        except StopIteration as ex:
+        except Exception as ex:
+            if isinstance(ex, StopIteration):
+                leaf = ex.value
+            else:
+                # Something outside the per-hook error handling failed (for
+                # example, isinstance() on an object whose __class__ lookup
+                # raises). Report it along with the frames we had so far.
+                errors.append(ex)
             error: Optional[Exception]
             if len(errors) > 1:
                 error = ExceptionGroup(
@@ -337,9 +345,11 @@ def extract_child(stackitem: StackItem, *, for_task: bool) -> Stack:
             else:
                 error = errors[0] if errors else None
             return Stack(
-                root=(None if isinstance(stackitem, StackSlice) else stackitem),
+                # (not isinstance(): that consults stackitem.__class__, which
+                # can raise, e.g. for a weakref.proxy whose referent is gone)
+                root=(None if issubclass(type(stackitem), StackSlice) else stackitem),
                 frames=frames,
-                leaf=ex.value,
+                leaf=leaf,
                 error=error,
             )
 
